@@ -35,6 +35,8 @@ mod c12_files;
 mod c12_l2b;
 #[path = "../shared/c12_prog.rs"]
 mod c12_prog;
+#[path = "../shared/c12_seq.rs"]
+mod c12_seq;
 
 use c12_adv::{Delivery, fmt_script, parse_script};
 use c12_decode::{T, decode_b, decode_bs, decode_r, is_read_format};
@@ -994,6 +996,7 @@ fn generate(rng: &mut Rng, tier: &str, w: &mut CaseWriter) {
     // ---- L2: whole-file readers composed from the primitives (fidxf, fqr, ...)
     c12_l2b::generate(rng, thorough, w);
     c12_prog::generate(rng, thorough, w);
+    c12_seq::generate(rng, thorough, w);
 }
 
 fn run(c: &Case) -> Obs {
@@ -1009,7 +1012,7 @@ fn run(c: &Case) -> Obs {
         "gffl" => run_gffl(c),
         "fseq" => run_fseq(c),
         "fidx" => run_fidx(c),
-        _ => c12_l2b::run(c).or_else(|| c12_prog::run(c)).unwrap_or_else(|| Obs::ok("-", false)),
+        _ => c12_l2b::run(c).or_else(|| c12_prog::run(c)).or_else(|| c12_seq::run(c)).unwrap_or_else(|| Obs::ok("-", false)),
     }
 }
 
